@@ -139,18 +139,18 @@ def write_at_calls(fv):
     return [n for n in fv.nodes if n.get("k") == "mcall" and cname(n) == "ktio::mmap::MMWriter::write_at"]
 
 
-def offset_rule(ctx, fm):
+def offset_rule(ctx, fm, R="C05.O"):
     ws = write_at_calls(fm)
     rows = [w for w in ws if fm.in_closure_passed_to(w, is_spawn) is not None]
     if len(rows) != 1:
-        ctx.fail("C05.O", "vectorise_mmap:row_write", "expected exactly one row write_at inside the workers, found %d" % len(rows),
+        ctx.fail(R, "vectorise_mmap:row_write", "expected exactly one row write_at inside the workers, found %d" % len(rows),
                  fm.fn["sp"])
         return
     w = rows[0]
     data, pos = fm.term(w["args"][0]), fm.term(w["args"][1])
     # ROW must be a format("{}\n", join(.., delim)) term
     if data[0] != "format":
-        ctx.fail("C05.O", "vectorise_mmap:row_term", "row data `%s` is not a formatted row" % show(data), line_of(w))
+        ctx.fail(R, "vectorise_mmap:row_term", "row data `%s` is not a formatted row" % show(data), line_of(w))
         return
     hdr = [b for lid, b in fm.binds.items() if b["name"] == "header" and b["mut"]]
     header_t = None
@@ -166,7 +166,7 @@ def offset_rule(ctx, fm):
             return "n"
         return show(t)
     pp = poly(pos, ctx.prog.consts, sym)
-    ctx.check("C05.O", "vectorise_mmap:offset", pp == {("len(ROW)", "n"): 1, ("len(HEADER)",): 1},
+    ctx.check(R, "vectorise_mmap:offset", pp == {("len(ROW)", "n"): 1, ("len(HEADER)",): 1},
               "offset = len(ROW)·n + len(HEADER)",
               "row offset normalises to `%s`, expected len(ROW)·n + len(HEADER) with ROW the very string written"
               % pshow(pp), line_of(w))
@@ -175,7 +175,7 @@ def offset_rule(ctx, fm):
     seqs = [s for s in subterms(data) if s[0] == "field" and s[2] == "seq"]
     same = len(ns) == 1 and len(seqs) >= 1 and all(s[1] == ns[0][1] for s in seqs)
     taken = same and contains(ns[0][1], lambda s: s[0] == "call" and s[1].endswith("Iterator::next"))
-    ctx.check("C05.O", "vectorise_mmap:same_record", bool(same and taken),
+    ctx.check(R, "vectorise_mmap:same_record", bool(same and taken),
               "ordinal and bases come from the one record taken under the lock",
               "the ordinal used for the offset (`%s`) and the bases of the row (`%s`) do not come from the same "
               "taken record" % ([show(x) for x in ns], [show(x) for x in seqs][:2]), line_of(w))
@@ -183,7 +183,7 @@ def offset_rule(ctx, fm):
     hw = [x for x in ws if x not in rows]
     okh = len(hw) == 1 and fm.term(hw[0]["args"][1]) == L(0) and header_t is not None \
         and fm.term(hw[0]["args"][0]) == header_t
-    ctx.check("C05.O", "vectorise_mmap:header_at_0", okh, "header bytes written at offset 0",
+    ctx.check(R, "vectorise_mmap:header_at_0", okh, "header bytes written at offset 0",
               "header is not written once at offset 0 from the string whose length shifts the rows",
               line_of(hw[0]) if hw else fm.fn["sp"])
 
@@ -271,8 +271,8 @@ def row_agreement(ctx, fb, fm):
               "writer strategies would not produce identical bytes" % (sb, sm), fm.fn["sp"])
 
 
-def selection_rule(ctx, fm):
-    fv = ctx.need("C05.S", VEC)
+def selection_rule(ctx, fm, R="C05.S"):
+    fv = ctx.need(R, VEC)
     if fv is None:
         return
     calls = fv.calls_to(MMAP)
@@ -289,7 +289,7 @@ def selection_rule(ctx, fm):
                 ok = True
             if p and t[0] == "bin" and t[1] == "&&" and SF("norm") in (t[2], t[3]):
                 ok = True
-    ctx.check("C05.S", "vectorise:mmap_only_when_norm", ok, "mmap path selected only when norm holds (%s)" % detail,
+    ctx.check(R, "vectorise:mmap_only_when_norm", ok, "mmap path selected only when norm holds (%s)" % detail,
               "vectorise() can reach the fixed-width mmap writer without `norm` (guards: %s)" % detail,
               line_of(calls[0]) if calls else fv.fn["sp"])
     # only caller
@@ -297,10 +297,10 @@ def selection_rule(ctx, fm):
     for v in ctx.all_views():
         if v.calls_to(MMAP):
             callers.append(v.path)
-    ctx.check("C05.S", "vectorise_mmap:callers", callers == [VEC], "vectorise_mmap called only from vectorise",
+    ctx.check(R, "vectorise_mmap:callers", callers == [VEC], "vectorise_mmap called only from vectorise",
               "vectorise_mmap is called from %s" % callers, fm.fn["sp"] if fm else None)
     if fm is not None:
         asserts = [n for n in fm.nodes if n.get("k") == "if" and fm.term(n["cond"]) == ("un", "!", SF("norm"))
                    and diverges(n["then"])]
-        ctx.check("C05.S", "vectorise_mmap:assert_norm", len(asserts) >= 1, "assert!(self.norm) present",
+        ctx.check(R, "vectorise_mmap:assert_norm", len(asserts) >= 1, "assert!(self.norm) present",
                   "vectorise_mmap no longer asserts `self.norm` (fixed-width rows are assumed)", fm.fn["sp"])
